@@ -3,6 +3,7 @@ import itertools
 import numpy as np
 import common
 from common import fbits, show_floats, parse_floats, outcome
+import optim_formulas, optim_cases
 
 PROP = 'C08'
 LEAN_TARGETS = ['Props.C08']
@@ -17,7 +18,10 @@ REQUIRED_THEOREMS = ['Props.C08.sgd_refines', 'Props.C08.sgd_plain_refines', 'Pr
                      'Props.C08.store_sgd_refines', 'Props.C08.store_sgd_plain_refines', 'Props.C08.data_element_kept',
                      'Props.C08.arrays_never_grow', 'Props.C08.data_shape_kept', 'Props.C08.data_shape_kept_adam',
                      'Props.C08.store_event_refines_adam', 'Props.C08.store_refines_value_model_adam', 'Props.C08.store_adam_refines',
-                     'Props.C08.aliased_first_buffer_counterexample']
+                     'Props.C08.aliased_first_buffer_counterexample',
+                     # the step bodies read from the source on this run (Generated/OptimSteps.lean)
+                     'Props.C08.src_sgd_step_is_model', 'Props.C08.src_adam_step_is_model', 'Props.C08.src_adamw_step_is_model',
+                     'Props.C08.src_sgd_step_is_published_rule', 'Props.C08.src_adam_step_is_published_rule', 'Props.C08.src_adamw_step_is_published_rule']
 RULE = ('histories over {backward(any subset of parameters, random gradient arrays), zero_grad, step, freeze/unfreeze} of '
         'length <= 10 (quick) / 60 (thorough), incl. several backward per step and step without zero_grad, over hyper-parameter '
         'combinations (momentum 0/>0, dampening, nesterov, weight_decay 0/>0, maximize, betas, eps), 1-3 parameters of 1-3 '
@@ -35,7 +39,14 @@ RULE = ('histories over {backward(any subset of parameters, random gradient arra
 EXHAUSTIVE = {'quick': False, 'thorough': False}     # thorough contains an exhaustive sub-family (all event words up to length 5), counted in the distribution
 ASSUMPTIONS = ['float64 parameters; NumPy array arithmetic is the pointwise map of IEEE binary64 scalar arithmetic',
                'Python float ** int is libm pow (as Lean Float.pow)']
-TRUSTED_BASE = ['harness/props/c08.py (generator, canonicalisation)']
+TRUSTED_BASE = ['harness/props/c08.py (generator, canonicalisation)',
+                'harness/optim_formulas.py (translation of the step bodies of optimizers.py into Generated/OptimSteps.lean; validated on every run by the `gstep` family)']
+
+
+def extract():
+    """the bodies of SGD.step / Adam.step / AdamW.step are re-read from optimizers.py and re-emitted as Lean functions; the src_* theorems are
+    re-checked against them by the build that follows"""
+    return optim_formulas.write()[0]
 
 
 def hyper(rng, kind):
@@ -87,6 +98,7 @@ def _ctor_line(c):
 
 def lines_of(c):
     if c.get('kind') == 'store': return _store_lines(c)
+    if c.get('kind') == 'gstep': return optim_cases.lines_of(c)
     offs = list(itertools.accumulate([0] + [len(t) for t in c['thetas']]))
     out = [_ctor_line(c), 'opt get']
     for e in c['evs']:
@@ -140,6 +152,11 @@ def cases(rng, tier):
     for _ in range(40 if tier == 'quick' else 600):
         out.append(gen_store(rng, tier))
     out.extend(_store_corpus())
+    # family `gstep`: the generated step bodies at Float against one step() of the real objects (validation of the translation)
+    try:
+        out.extend(optim_cases.cases(rng, tier))
+    except Exception:
+        pass                                  # nothing translated: the build of Props.C08 reports it
     for c in out:
         c['lines'] = lines_of(c)
         c['desc'] = {'opt': c['opt'], 'hp': c['hp'], 'thetas': c['thetas'], 'rgs': c['rgs'], 'evs': c['evs'][:12]}
@@ -188,6 +205,7 @@ def _run(c, observe):
 
 def impl(c):
     if c.get('kind') == 'store': return _store_impl(c)
+    if c.get('kind') == 'gstep': return optim_cases.impl(c)
     out = []
     flags = {'inplace': True, 'dtype': True}
     def observe(e, ps, ids):
@@ -225,6 +243,7 @@ def _close(a, b, tol=1e-10):
 
 def compare(c, mo, io):
     if c.get('kind') == 'store': return _store_compare(c, mo, io)
+    if c.get('kind') == 'gstep': return optim_cases.compare(c, mo, io)
     diffs = []
     if mo[0] == 'rejected' and io[0] == 'rejected':
         return []
@@ -242,6 +261,7 @@ def compare(c, mo, io):
 
 
 def nontrivial(c):
+    if c.get('kind') == 'gstep': return True
     hp = c['hp']
     nd = any(hp.get(k) for k in ('momentum', 'dampening', 'weight_decay', 'nesterov', 'maximize')) or c['opt'] != 'sgd'
     if c.get('kind') == 'store':
@@ -261,6 +281,9 @@ def nontrivial(c):
 def distribution(cases):
     d = {}
     for c in cases:
+        if c.get('kind') == 'gstep':
+            d['gstep:' + c['opt']] = d.get('gstep:' + c['opt'], 0) + 1
+            continue
         if c.get('kind') == 'store':
             for k in ['store', 'store:' + c['opt']] + ['store-ev:' + e[0] for e in c['evs']]:
                 d[k] = d.get(k, 0) + 1
@@ -606,6 +629,7 @@ def _spec(c):
 
 def oracle(c):
     if c.get('kind') == 'store': return _store_oracle(c)
+    if c.get('kind') == 'gstep': return None          # the translation is compared there; `search` replays histories against the published recursion
     legal = not (c['opt'] == 'sgd' and c['hp']['nesterov'] and (c['hp']['momentum'] <= 0 or c['hp']['dampening'] != 0))
     seen = []
     flags = {'inplace': True, 'dtype': True}
@@ -642,6 +666,7 @@ def _strip(c, nev=None):
 
 def search(rng, tier):
     for c in cases(rng, 'quick'):
+        if c.get('kind') == 'gstep': continue
         f = oracle(c)
         if f:
             yield f
